@@ -233,7 +233,7 @@ pub trait ElementMut: Element + NodeMut {
     fn remove_attribute_node(&self, old_attr: XmlAttr) -> error::Result<XmlAttr> {
         match self.get_attribute_node(old_attr.name().as_str()) {
             Some(attr)
-                if attr.owner_document() == old_attr.owner_document()
+                if same_document(&attr.owner_document(), &old_attr.owner_document())
                     && attr.as_node().id() == old_attr.as_node().id() =>
             {
                 self.remove_attribute(old_attr.name().as_str())?;
